@@ -93,6 +93,11 @@ CHECKS.update({
             '(sequence, group+plug, repeat, subtest, test_start) x abort source (Test.handle_sig_int run on the execute() thread at a scheduler-chosen point, or another thread) x 1-2 aborts; DFS with <=1 preemption '
             '(capped) + seeded random schedules; each run judged on return, body overlap, late starts, outcome, callbacks, teardown, clean-up',
             'trusted: TLC, vf/sched.py (signal delivery and preemption at synchronisation operations, flag reads and body points only), the event-log judge in checks/c04.py', 'DESIGN.md 5/C04'),
+    'C17': ('TLA+ spec AtomicPublish.tla (AtomicDest as a state invariant = every crash point) checked by TLC; recorded file-system operation sequences of the real callbacks validated by TLC (trace validation); destination inspected after killing a forked child at every prefix',
+            'OutputToFile (chunked serializer, default pickle), OutputToJSON and util.atomic_write x faults {none, serializer raises after k chunks, k-th write raises, close raises} x {no previous file, previous file}: '
+            'the operation sequence (create/write/close/rename/remove) is recorded and TLC checks AtomicDest after every operation and SuccessPublishes/FailureKeepsOld at the end; the model of the file system is bound '
+            'to the real one by really killing a forked child after each operation',
+            'trusted: TLC, vf/fsrec.py (wraps tempfile/open/os.rename/os.remove in the harness process), same-file-system staging directory; power loss (unsynced data) out of scope', 'DESIGN.md 5/C17'),
 })
 
 NOT_APPLICABLE = {
